@@ -13,7 +13,7 @@ import re
 
 from ..charset import CS, NON_XML
 from ..common import short, where
-from ..exprs import strip
+from ..exprs import inline_calls, strip
 from ..mirlib import Expr, Program, expr_str
 from ..sinks import FORBIDDEN, SinkAnalysis
 
@@ -122,12 +122,25 @@ def run(run):
         if p not in prog.bodies:
             run.missing("C02.S3", p)
             continue
-        renders = [t for _, t in prog.calls(p) if re.search(r"Node<MSG>>::render(_to_string)?$", Program.callee_name(t))]
-        others = [t for _, t in prog.calls(p) if re.search(r"push_str|write_str|String::push|insert_str|format", Program.callee_name(t))]
+        # the returned string is the output of exactly one sauron render call and nothing else is written into it
+        # (helpers and delegation to another entry point are inlined first)
+        flat = []
+        for r in Expr(prog, p).returns():
+            x = strip(inline_calls(prog, r, keep=r"CellBuffer::|convert::From<|Default>::default$"))
+            flat.extend(strip(y) for y in x[1]) if x[0] == "phi" else flat.append(x)
+        renders, others = [], []
+        for x in flat:
+            if x[0] in ("call", "mutated_by") and re.search(r"Node<MSG>>::render(_to_string)?$", x[1]):
+                renders.append(x)
+            elif x[0] == "call" and x[1].endswith("String::new"):
+                continue
+            else:
+                others.append(x)
         if len(renders) == 1 and not others:
-            run.ok("C02.S3", "%s returns one rendered node" % n, where(renders[0]))
+            run.ok("C02.S3", "%s returns one rendered node" % n, where(prog.bodies[p]))
         else:
-            run.bad("C02.S3", "entry-render/%s" % n, where(prog.bodies[p]), "%s has %d render calls and %d other string writes" % (n, len(renders), len(others)))
+            run.bad("C02.S3", "entry-render/%s" % n, where(prog.bodies[p]), "%s returns %d rendered nodes and %d other values (%s)" % (
+                n, len(renders), len(others), "; ".join(expr_str(o)[:60] for o in others[:2])))
     run.assume("sauron 0.61 writes text leaves verbatim and attribute values between double quotes (render.rs read)")
     run.assume("feature with-dom (no escaping, output goes to the DOM) is out of scope")
 
